@@ -23,6 +23,29 @@ CHECKS = {
          "Trusts: spec/Lang.tla keyword list as independent transcription of JSight API 0.3; TLC.",
          "DESIGN.md 5/C13"),
 }
+
+CHECKS.update({
+ "C02": ("TLC: Tree+Macro+Catalog pipeline (Catalog.tla) computes verdict and catalog skeleton for every document of a block-template model; each document replayed on the real build in several layouts; projected JSON compared with the skeleton",
+         "The whole build (tree, MACRO/PASTE expansion, collect*, add*, compile, validate) is specified as pure TLA+ operators; for every document of JSIGHT + up to 3 (quick, 5 155 documents) / 4 (thorough, ~75 000) distinct blocks out of 17 templates TLC computes accept + skeleton (sections in document order, ids, names, annotations, descriptions, parameters, schema root/notation/used types/enums, path variables, tag<->interaction lists) or error class + line; the real catalog JSON, projected by the harness, must equal it in the canonical and in seeded random layouts.",
+         "Trusts: jsight-schema-core for schema content below the root; the projection (harness/cmd/vh/proj.go) fails loudly when the JSON lacks the JDoc Exchange shape; TLC.",
+         "DESIGN.md 5/C02"),
+ "C05": ("TLC: CrossRefsClosed invariant on every accepted catalog of the document model; the same invariants evaluated on the real JSON; real corpus catalogs logged and judged by Trace_C05.tla",
+         "Cross-reference closure (key = id = protocol method path; tag <-> interaction both ways with multiplicity 1 under the right protocol; used types/enums defined; pathVariables = {parameters}; codes 100-599 with bodies; JSIGHT 0.3) is an invariant of the catalog model (M), is evaluated by the harness on the real JSON of every accepted model document (G) and, in TLA+ (SkelOK), on the logged catalogs of all 714 accepted corpus files (V).",
+         "Trusts: extraction of {parameters} from path text by the harness; TLC; jsight-schema-core for usedUserTypes/usedUserEnums of a schema.",
+         "DESIGN.md 5/C05"),
+ "C07": ("TLC: Inc.tla (scanner stack, tracer cache quirk, explicit-depth per file) over all include graphs of a small project; every terminal state replayed on the real build with recomputed line/column/quote and include traces",
+         "Every terminal state of the include-graph model (3 files quick / 4 thorough, lazily chosen contents: 171 241 / >1 M projects) is replayed: error class, file, line, recomputed line/column/quote from the file bytes, rendered include trace vs the chain the model followed, the trace carried by every accepted directive, and the trace of a build-phase rule error (duplicate TYPE) inside included files. The one recorded deviation (tracer cache keyed by includer name) is modelled as QuirkTracerCache and reported as KNOWN-FINDING only when the observation equals the quirk model's prediction.",
+         "Trusts: LF-only generated files for the definition of 'line of an index'; TLC.",
+         "DESIGN.md 5/C07"),
+ "C09": ("TLC: Inc.tla; all nested balanced cuts (and re-use) of 5 base documents into include trees; tree-shape invariant in the model, catalog/error comparison split-vs-unsplit on the real build",
+         "From 5 base documents (explicit context, Path + bodies, rule-rejected duplicate TYPE, identical runs, method+Path piece reused under two resources) the model generates every project reachable by up to 2 (quick, 7 713 projects) / 3 (thorough) nested cuts of balanced token runs and by re-use of a file for an identical run; invariant: the tree of the project has the shape of the tree of the unsplit document. Each project is built by the real code and compared with the real build of the unsplit document: catalog bytes, or message + file + corresponding line (+ include trace) of the rule error.",
+         "Trusts: one-directive-per-line rendering; cuts are balanced w.r.t. '( )' and do not move JSIGHT (both are model-predicted errors otherwise).",
+         "DESIGN.md 5/C09"),
+ "C14": ("TLC: exhaustive INCLUDE names over {a . / \\ space} up to 6/7 chars against the segment predicate + Inc.tla include graphs (cycles, missing, directory); file-access hook records every path handed to the OS",
+         "All 19 530 (quick) / 97 655 (thorough) parameter strings are classified by the specification's segment predicate (refused iff empty, absolute, backslash, or a '.'/'..' segment) and replayed against a project with decoy files outside the root: refused names must not reach the file system (hook), accepted names must stat exactly dir(includer)/clean(name) inside the project, outcome ok / is-a-directory / does-not-exist. All include graphs of the C07 model check cycle detection (every length over the files), repeated non-cyclic inclusion, missing/directory targets located at the INCLUDE, under rotated spellings of the root path.",
+         "Trusts: the verif file-access hook sits directly in front of os.Stat / os.ReadFile; names that need quoting and contain a backslash are not replayed (covered bare).",
+         "DESIGN.md 5/C14"),
+})
 NOT_YET = {}
 ALL = ["C%02d" % i for i in range(1, 20)]
 
@@ -48,7 +71,7 @@ def main():
     hooks = subprocess.run(["git", "-C", "/repo", "log", "--format=%H %s"], capture_output=True, text=True).stdout.splitlines()
     m = {
         "version": 1,
-        "setup_cmd": "cd /verif/harness && cp /repo/go.sum . && %s go build -tags verif -o /dev/null ./cmd/vh && for m in MC_C10 MC_C11 MC_C12 MC_C13; do (cd /verif/spec && tla-sany $m.tla >/dev/null) || exit 1; done" % GO,
+        "setup_cmd": "cd /verif/harness && cp /repo/go.sum . && %s go build -tags verif -o /dev/null ./cmd/vh && for m in MC_C02 MC_C07 MC_C09 MC_C10 MC_C11 MC_C12 MC_C13 MC_C14; do (cd /verif/spec && tla-sany $m.tla >/dev/null) || exit 1; done" % GO,
         "hooks": {
             "guard": "verif",
             "enable": "go build -tags verif (the harness module /verif/harness replaces github.com/jsightapi/jsight-api-core with /repo)",
